@@ -8,6 +8,12 @@ func init() { register("C17", propC17) }
 
 const wgslNamesClause = "frontend keyword tables (E18): every entry of the lowerer's map[string]ir.<Enum> literals (builtin values, address spaces, texel formats, math builtins) maps a WGSL word to the IR constant named by the same word (case, underscores and the enum prefix aside)"
 
+var literalRawParseExceptions = map[string]string{
+	"wgsl/internal/lower.Lowerer.evalConstU32Expr:strconv.ParseUint": "fallback reached only after the constant-expression evaluator (which parses suffixed and hexadecimal literals) has declined the expression",
+	"wgsl/internal/lower.Lowerer.evalConstU32Expr:strconv.ParseInt":  "fallback reached only after the constant-expression evaluator has declined the expression",
+	"wgsl/internal/lower.Lowerer.tryConstantArrayIndex:strconv.Atoi":  "fast path of an optimisation: when the parse fails the function declines (ok=false) and the caller lowers the index expression through the general path, which handles suffixed and hexadecimal literals",
+}
+
 func propC17(c *Ctx, r *Report) {
 	r.Clauses = append(r.Clauses,
 		"total setters (E7, go/cfg must-assign): a backend method that computes per-entry-point binding state into a receiver field on two or more result-like paths (assign-then-return) assigns it on every non-error path, so no entry point is emitted with the slot map / interface state left by the previous one")
@@ -18,6 +24,9 @@ func propC17(c *Ctx, r *Report) {
 	c.runBlockWalkers(r, "operands", "backends", inPkgs("spirv/internal/codegen", "msl/internal/codegen", "hlsl/internal/codegen", "glsl/internal/codegen"), nil)
 	r.Clauses = append(r.Clauses, enumMapClause)
 	c.runEnumTables(r, "spirv", "hlsl", "msl", "glsl")
+	r.Clauses = append(r.Clauses, "literal text (E10): no strconv.Parse* / Atoi / fmt.Sscan* call in the frontend receives the raw Value text of a parser.Literal (which keeps the WGSL suffix and may be hexadecimal); numeric text goes through the lowerer's literal parsers, so @workgroup_size(64u), @align(0x10), @id(3u) and suffixed override defaults are not silently replaced by defaults")
+	c.runLiteralRawParse(r, "literal.rawparse", inPkgs("wgsl"), literalRawParseExceptions)
+	r.floor("literal.parses", 25)
 	r.Clauses = append(r.Clauses, wgslNamesClause)
 	c.runWGSLNameTables(r, "names.wgsltable", "wgsl/internal/lower")
 	r.floor("names.wgsltable", 100)
